@@ -218,13 +218,12 @@ Section DocCorrect.
   Theorem doc_retrieve_correct r : r < length rb -> doc_retrieve d r = Ok (spec_record text rb r).
   Proof.
     intros Hr. unfold doc_retrieve, spec_record. rewrite Hrb, (rb_offset_of n rb Hv r Hr). cbn [ok_or rbind].
-    assert (Hlim : (match bv_select (rb_bits n rb) (r + 1) with Some l => Ok l | None => doc_len d end)
-                   = Ok (nth (S r) rb n)).
+    rewrite doc_len_correct. cbn [rbind].
+    assert (Hlim : (match bv_select (rb_bits n rb) (r + 1) with Some l => l | None => n end) = nth (S r) rb n).
     { destruct (Nat.lt_ge_cases (S r) (length rb)) as [H|H].
-      - replace (r + 1) with (S r) by lia. rewrite (rb_offset_of n rb Hv (S r) H). f_equal. apply nth_indep. exact H.
-      - rewrite (rb_offset_of_none n rb Hv (r + 1)) by lia. rewrite doc_len_correct. f_equal.
-        symmetry. apply nth_overflow. lia. }
-    rewrite Hlim. cbn [rbind]. fold n.
+      - replace (r + 1) with (S r) by lia. rewrite (rb_offset_of n rb Hv (S r) H). apply nth_indep. exact H.
+      - rewrite (rb_offset_of_none n rb Hv (r + 1)) by lia. symmetry. apply nth_overflow. lia. }
+    rewrite Hlim. fold n.
     assert (Hle : nth r rb 0 <= nth (S r) rb n /\ nth (S r) rb n <= n).
     { destruct (Nat.lt_ge_cases (S r) (length rb)) as [H|H].
       - rewrite (nth_indep rb n 0 H). destruct Hv as (_ & S & _).
